@@ -491,3 +491,18 @@ def r12(ctx):
 
 
 RULES.append(("C12.R12", "T8", "every solicited reply is addressed to the sender of the request it answers", r12))
+
+
+def r13(ctx):
+    """'every solicited response carries the sequence number of the request it answers' - once: a deferred READ is released when it
+    has been answered, else it is answered again from idle with the old request's sequence number, tied to no request (C14.R7,
+    shared code). 'a request ... of which any object header is rejected is answered with an IIN2 error bit': an identifier that does
+    not fit the type it is converted to is rejected, not wrapped - narrowing casts on the request path are range-guarded or listed
+    (C10.R1 for the database, C09.R16 for the codecs; shared code)."""
+    import c14, c10, c09
+    c14.r7(ctx)
+    c10.r1(ctx)
+    c09.r16(ctx)
+
+
+RULES.append(("C12.R13", "T2-region/T1-census", "a deferred READ is answered once (C14.R7); identifiers in requests are not narrowed silently (C10.R1, C09.R16)", r13))
